@@ -297,6 +297,18 @@ func monitorUCI(sc *UCIScenario, out *UCIOutcome) (vs []Violation, windows []*go
 			add("C13", "bestmove-without-search", fmt.Sprintf("bestmove %q printed but the search call did not return", w.bestmoves[0]), w.goSeq)
 			continue
 		}
+		// a request without a clock of the mover and without a move time must
+		// reach the search without a time limit: otherwise its result depends on
+		// the wall clock (C08)
+		if clk := parseGoClock(w.goLine); clk.movetime <= 0 && w.call.Opts.SoftTime != 0 {
+			own := clk.btime
+			if w.game.Cur().White {
+				own = clk.wtime
+			}
+			if own <= 0 {
+				add("C08", "clock-on-untimed-go", fmt.Sprintf("go=%q carries no clock of the side to move and no move time, but the search was given a soft time limit of %d ms", w.goLine, w.call.Opts.SoftTime), w.goSeq)
+			}
+		}
 		bm := strings.Fields(w.bestmoves[0])
 		res := &SearchResult{Move: "", Ponder: "0000", Score: w.call.Score, Aborted: w.call.Aborted, Lines: w.infos, BoardDiff: w.call.BoardDiff}
 		if len(bm) >= 2 {
